@@ -6,7 +6,7 @@ import (
 
 // Cond is a condition over integer and boolean instance variables.
 type Cond struct {
-	Op  string `json:"op"` // true false var not eq ne lt gt and or | raw (Var holds text that cannot be evaluated to a boolean)
+	Op  string `json:"op"` // true false var not eq ne lt gt and or | dobj (Var names a boolean data object) | raw (Var holds text that cannot be evaluated to a boolean)
 	Var string `json:"var,omitempty"`
 	K   int64  `json:"k,omitempty"`
 	L   *Cond  `json:"l,omitempty"`
@@ -35,6 +35,11 @@ func (c *Cond) Eval(vars map[string]any) (val bool, ok bool) {
 	switch c.Op {
 	case "raw":
 		return false, false
+	case "dobj":
+		// data objects live beside the variables: the model keeps their values
+		// in the variable map under DataObjKey(name)
+		b, isB := vars[DataObjKey(c.Var)].(bool)
+		return b, isB
 	case "true":
 		return true, true
 	case "false":
@@ -71,6 +76,22 @@ func (c *Cond) Eval(vars map[string]any) (val bool, ok bool) {
 	return false, false
 }
 
+// DataObjKey is the key under which the value of data object name is kept in
+// a case's variable map (the engine receives those entries through
+// bpmn.WithDataObjects, not as variables).
+func DataObjKey(name string) string { return "$do$" + name }
+
+// DataObjPool are the data objects conditions may read.
+var DataObjPool = []string{"d0", "d1"}
+
+// UsesDataObject reports whether the condition reads a data object.
+func (c *Cond) UsesDataObject() bool {
+	if c == nil {
+		return false
+	}
+	return c.Op == "dobj" || c.L.UsesDataObject() || c.R.UsesDataObject()
+}
+
 // Vars lists the variables the condition reads.
 func (c *Cond) Vars(into map[string]string) {
 	switch c.Op {
@@ -96,6 +117,8 @@ func (c *Cond) Expr() string {
 		return c.Op
 	case "var":
 		return c.Var
+	case "dobj":
+		return fmt.Sprintf(`getDataObject("%s") == true`, c.Var)
 	case "not":
 		return "!(" + c.L.Expr() + ")"
 	case "and":
